@@ -74,7 +74,7 @@ theorem dumpH_slice (v : GoVal) (h : inScope v = true) (st : DSt) :
     rw [inScope] at h
     simp only [dumpH, if_true, doc, print, w_buf, mark_buf, dumpEntries_buf es h]
     simp
-  | iface d => simp [inScope] at h
+  | iface _ d => simp [inScope] at h
   | other k t n z => simp [inScope] at h
 
 /-- through pointers down to a struct (or nil): the same text whether or not it is a collection element -/
@@ -101,7 +101,7 @@ theorem dumpH_ptr (v : GoVal) (h : ptrTarget v = true) (s : Bool) (st : DSt) :
   | slice t e n es => simp [ptrTarget] at h
   | array t e es => simp [ptrTarget] at h
   | map t k n es => simp [ptrTarget] at h
-  | iface d => simp [ptrTarget] at h
+  | iface _ d => simp [ptrTarget] at h
   | other k t n z => simp [ptrTarget] at h
 
 theorem dumpObj_buf (fs : Fields) (h : inScopeFields fs = true) (st : DSt) :
@@ -186,7 +186,7 @@ theorem dumpKV_buf (field : Option (Bytes × Bool)) (v : GoVal) (h : inScope v =
     rw [dumpKV, doc, print]
     simp only [ht, Bool.false_eq_true, if_false, w_buf, mark_buf, dumpEntries_buf es h, dumpName_buf']
     simp
-  | iface d => simp [inScope] at h
+  | iface _ d => simp [inScope] at h
   | other k t n z => simp [inScope] at h
 
 theorem dumpElems_buf (es : GoVals) (h : inScopeElems es = true) (st : DSt) :
